@@ -109,7 +109,17 @@ def make_env(jinja2, axis, loader, autoescape, build_dir=None):
     elif axis == "bccache" and build_dir:
         kw["bytecode_cache"] = jinja2.FileSystemBytecodeCache(build_dir)
     if axis == "overlay":
+        # LIFECYCLE: the parent has been USED (every template loaded and rendered once through the loader, with the
+        # opposite autoescape setting) before the overlay is created; the overlay must compile its own templates
         base = jinja2.Environment(loader=loader, autoescape=(False if autoescape is True else True))
+        try:
+            for nm in loader.list_templates():
+                try:
+                    base.get_template(nm).render()
+                except Exception:
+                    pass
+        except Exception:
+            pass
         env = base.overlay(autoescape=autoescape)
     else:
         env = cls(**kw)
@@ -238,6 +248,14 @@ EXPRS = [
     "([a]|list)|string|replace(b, c)", "{'k': [a]}|tojson", "[a, b]|center(40)", "[a]|indent(width=b)", "[a, b]|trim", "(a, b)|title",
     "[a, b]|truncate(9, true, c)", "[a]|wordwrap(3, true, b)", "{'k': a}|string|urlize", "[m, a]|join", "[a, m]|join", "[m, a, m]|join(c)",
     "[m, b]|join(', ')", "[b, m]|join(', ')", "[m, 1]|join('-')",
+    # str.format / format_map on fragments and literals with FORMAT SPECS and conversions (sandboxed formatters too)
+    "(m ~ '{0:12}|{k:s}').format(a, k=b)", "(m ~ '{0!s}|{k!r:>8}').format(a, k=b)", "(m ~ '{:>30}').format(a)", "(m ~ '{k:^20s}').format_map({'k': a})",
+    "'{:>20}'.format(a)", "'{0:s}{1!r}'.format(m, a)", "(m ~ '{0[0]}{0.__class__.__name__:s}').format(a)", "(m ~ '{:5}').format(missing)",
+    "(m ~ '{0:{1}}').format(a, 9)", "m.format(a, b)", "(m ~ '{}').format([a, b])", "(m ~ '{k!s:10}').format(k=fn(a))",
+    # filters invoked THROUGH other filters (map / select / call_filter paths of Environment._filter_test_common)
+    "[[m, a], [b]]|map('join', c)|join('|')", "[m, a]|map('replace', 'o', b)|join(c)", "[a, m]|map('indent', b)|join", "[m]|map('join', a)|list",
+    "[[a, b]]|map('join', m)|first", "[a, b]|map('e')|map('replace', 'o', c)|join", "[{'k': a}]|map('xmlattr')|join", "[a]|map('urlize')|join(b)",
+    "[[m, a]]|map('join')|map('string')|join(b)", "[a, m]|map('truncate', 9, true, b)|join", "[m, a]|map('center', 30)|map('trim')|join(c)",
     # failed lookups whose KEY is hostile data (the undefined object's text may name it), plain callables from the context
     "{'x': 1}[a]", "missing[a]", "{}[a][b]", "{}[a].x", "a.nope", "a[b]", "[1][a|length]", "{}[a]|default(b)", "({}[a] ~ b)", "{}[a]|string",
     "[{}[a], m]|join(b)", "{'k': {}[a]}|xmlattr", "fn()", "fn(a)", "fn(a) ~ b", "[fn(a), m]|join(c)", "fn(m)", "fn|string|length",
